@@ -310,6 +310,9 @@ func OpenSession(first []byte, keys []ech.Key) (s *Session, err error, panicked 
 	return s, err, nil
 }
 
+// HarnessBytes is the memory the session driver itself holds (read buffer).
+func (s *Session) HarnessBytes() int { return cap(s.buf) }
+
 // ReadOnce performs one Conn.Read with a buffer larger than any record.
 func (s *Session) ReadOnce() (data []byte, err error, panicked any) {
 	defer func() {
